@@ -73,7 +73,34 @@ ENTRY = {'coq_dir': 'C19',
          'reserve / zeroed / split_to / advance / truncate / get_uN / range-slice token (239 sites) and every ProtocolCodec choice (7) -> '
          'coq/gen/DecodeSites.v; coq/C19/Sites.v classifies each site and proves sites_match / codecs_match / codecs_all_bounded / maddr_codes_match '
          '/ third-party limits, so a new or moved parse / allocation site, a protocol without frame limit, a new multiaddr protocol or a changed '
-         'default of tungstenite / snow / yamux / prost is a failed obligation',
+         'default of tungstenite / snow / yamux / prost is a failed obligation CONSUMER STAGE (fourth seeded round): a decoder that returns a value '
+         'on which the next line of the event loop panics is, for the node, a decoder that panics on remote bytes; so after a successful decode the '
+         'worker hands the value to its first consumers exactly as the real code does, and a panic there is the trace `3 stage` (prop_ok = false), '
+         "an abort / hang the worker's ABORT / TIMEOUT. Kind 1 (every Kademlia case, k >= 1): the REAL Kademlia::run loop (VerifKademlia on "
+         'TransportService::verif_new, in-memory substreams) receives the very bytes in FIVE ROLES: as an inbound request (no query id) and as the '
+         'reply to its own FIND_NODE / GET_VALUE / GET_PROVIDERS / PUT_VALUE query (known peer + connection, command, the substream the loop asks '
+         'for carries the bytes) -> on_message_received, update_routing_table -> TransportService::add_known_address + RoutingTable::add_known_peer '
+         '(both append /p2p/<peer> with peer.into()), QueryEngine::register_response, MemoryStore::put / put_provider, the user events; observed and '
+         'PREDICTED by the model: loop alive, the reply frame byte for byte (request role), RoutingTableUpdate peer list, IncomingRecord, '
+         'IncomingProvider (local and remote peer ids come from dictionary entries 9 / 10 written by the worker). Kind 10: every conversion of the '
+         "decoded PeerId into the multiaddr / multihash crates' types and back (From<PeerId> for multiaddr::PeerId, Multihash, Vec<u8>, "
+         'Protocol::P2p + try_from_multiaddr, AddressRecord::new / from_multiaddr, base58 / Display / FromStr, Kademlia Key): the converted bytes '
+         'are predicted. Kinds 5 / 6 / 22: the peer id of the decoded identity key (to_peer_id) and its conversions (predicted for 5 / 6). Kind 11 '
+         '(+ every address of an identify event, kind 7, and of an mDNS discovery, kind 24): text form, PeerId::try_from_multiaddr, '
+         'AddressRecord::from_multiaddr, the tcp and websocket socket-address parsers (multiaddr_to_socket_address; results predicted), '
+         'TransportManagerHandle::supported_transport / add_known_address under three peer ids, the /p2p append. Kinds 12 / 16: the trace carries '
+         'the index of the negotiated name in the offered list (the lookup accept_substream / protocol_codec do); the random stream also draws C03 '
+         "mode-5 cases (a real ProtocolSet: protocol_codec under every advertised name) and mode-6 cases (the transports' negotiate_protocol). "
+         'GENERATORS: every multihash shape (code in {identity, sha2-256, sha2-512, sha1, blake2b} x digest length 0..66) as kind 10, as /p2p of '
+         'kind 11, and (first three codes) as closer peer / provider / publisher of five Kademlia message shapes; over-long varints; the local and '
+         'the remote peer inside messages; peers with no / empty / duplicate / unspecified / empty-DNS / 300-byte-DNS / p2p-first / '
+         'trailing-component addresses under k in {1, 20}; records with empty key / value and ttl extremes; every message type with empty and odd '
+         'keys; more peers than k; identify under every valid peer shape; key messages padded across the inlining boundary. PANIC-PATH INVENTORY: '
+         'tools/gen_c19_sites.py also extracts every non-test `expect` / `unwrap` / `unreachable!` / `panic!` / `todo!` / `assert!` and every CALL '
+         'of the panicking conversion From<PeerId> for multiaddr::PeerId (110 sites) -> DecodeSites.panic_sites; coq/C19/PanicSites.v classifies '
+         'each (PV = reachable by a decoded value: invariant + theorem + harness kind with a consumer stage; PS own state machine; PL local '
+         'configuration; PE encoder; PT third-party validated) and proves panic_sites_match, so a new `expect` one step behind a decoder is a failed '
+         'obligation until classified',
  'trusted_base': ['prost 0.13.5, multiaddr 0.18.2, cid 0.11.3, multihash 0.19.5 and unsigned-varint 0.8 are modelled from their sources as read '
                   "(coq/common/Protobuf.v, coq/C19/Formats.v); the tie is the differential run, not a proof about those crates; prost's "
                   'RECURSION_LIMIT = 100 and the multiaddr protocol table are transcribed',
@@ -103,7 +130,11 @@ ENTRY = {'coq_dir': 'C19',
                   'client_async_tls / from_raw_socket exactly as accept_connection / dial_peer do, over a caller-supplied socket)',
                   'allocation bounds of the new kinds (measurements + the third-party defaults): Noise handshake 2 MiB (NoiseSocket buffers '
                   '5*65535+..), WebSocket 16 MiB (tungstenite max_frame_size, reserved when the header arrives) + 8|stream| + 1 MiB, mDNS 96 bytes '
-                  'per datagram byte + 80 KiB'],
+                  'per datagram byte + 80 KiB',
+                  'consumer stage: hooks of C14 / C16 / C17 reused unchanged (VerifKademlia = the crate-private Kademlia object and its unmodified '
+                  'run(), VerifServiceInput, TransportManager::verif_handle, AddressRecord, TcpAddress / WebSocketAddress parsers); no new hook, no '
+                  'copy of production logic; the substream codec limit 70 KiB is passed by the harness (DEFAULT_MAX_MESSAGE_SIZE, extracted constant '
+                  'in the model)'],
  'level_text': 'Proof, for executable models of every decoder named by the property. Protobuf layer (prost): tokeniser with groups and recursion '
                'limit, fuel S|input| proved sufficient and irrelevant, tokens + payload <= |input|, decode(encode) = id. Per schema (Kademlia, '
                'identify, bitswap, noise payload, keys.proto, webrtc.proto): materialised size <= |input| and decode(encode m) = m. litep2p '
@@ -121,7 +152,16 @@ ENTRY = {'coq_dir': 'C19',
                'for a payload that decodes, carries a key passing the curve check and a signature the oracle confirms (its id is the id of THAT '
                'key), a lying length prefix never yields a peer; mDNS: every reported address is the parse of a TXT value of an additional record '
                'whose name is the first foreign PTR target, at most as many as TXT values, our own name is ignored. Inventory ties (sites, codecs, '
-               'multiaddr codes, third-party limits) are theorems over tables generated from the Rust / vendored sources.',
+               'multiaddr codes, third-party limits) are theorems over tables generated from the Rust / vendored sources. CONSUMER STAGE (fourth '
+               'seeded round): for every conversion of the crate with a panic path that a decoded value can reach, the accepted set of the producing '
+               "decoder implies the invariant that keeps it safe: every byte string PeerId::from_bytes accepts converts into the multiaddr crate's "
+               "PeerId (C18's models of litep2p's from_multihash and of libp2p-identity's), the conversion is safe on EXACTLY the admitted "
+               'multihashes (witness identity/43), the id of an Ed25519 identity key converts, an inlined key fits the multihash; whatever '
+               'KademliaMessage::from_bytes lets through has only convertible peer ids (closer peers, providers, publisher), the peers '
+               'update_routing_table walks over are decoded, convertible, never the node itself and at most as many as decoded, a request never '
+               'reaches update_routing_table; an address AddressRecord keeps (parsed, ends in /p2p, or /p2p appended for a decoded peer) carries an '
+               'id (dial_address); the message-based listener only accepts one of the offered names (accept_substream / protocol_codec). The '
+               'panic-path inventory is a theorem over the table extracted from the source.',
  'level_note': 'FIXED in this round: F-C19a (repo db7fd73): simple-dns reserves memory for the record counts announced by the DNS header, ~9.4 MiB '
                'for a 12..60-byte mDNS datagram; litep2p now refuses headers that announce more than the datagram can hold (witness '
                'corpus/C19/mdns_counts.case). Known finding class 1 (third party): yamux 0.13.10 computes `credit + DEFAULT_CREDIT` of a '
@@ -142,7 +182,14 @@ ENTRY = {'coq_dir': 'C19',
                'reserves the announced frame length up to its default 16 MiB limit on the header alone; a local listen address longer than 247 '
                'characters makes Mdns::on_inbound_request panic on any query. Semantic disagreements of the new kinds (a wrong error class, wrongly '
                'delivered bytes) break the correspondence but are a VIOLATION only when they show as panic / hang / allocation / cap / round-trip '
-               'failure in the implementation trace.',
+               "failure in the implementation trace. CONSUMER STAGE, not modelled: the outcome of the loop's own query after the reply (QueryEngine "
+               'decisions, FindNodeSuccess / QueryFailed / GetRecordPartialResult events), the content of the routing table and of the store, and '
+               'what add_known_address keeps are executed for real but not predicted (the engine, the table, the store and the address book are C15 '
+               '/ C14 / C17 / C10). The dial that follows (TransportManager not polled) is not reached. Kademlia consumer stage needs k >= 1 and the '
+               'default 70 KiB frame limit (larger messages never reach the decoder). Text form of an address (Display / FromStr) is run, not '
+               'predicted (some valid binary addresses have no text form that parses back). debug_assert! sites are not in the panic-path inventory '
+               "(compiled out of release builds). ProtocolSet lookups are driven through the embedded C03 cases, their model is C03's. The WebRTC "
+               "opening path's conversion (opening.rs) is covered only through the id derivation (kinds 6 / 22).",
  'assumptions': ['bytes are below 256 (other inputs are rejected by the case decoder)',
                  'byte strings and nested encodings are shorter than 2^64 (hypothesis wf_* of the round-trip theorems)',
                  '64-bit usize; cargo feature `rsa` off',
@@ -196,4 +243,10 @@ ENTRY = {'coq_dir': 'C19',
                  'C19_roundtrip_public_key, C19_roundtrip_noise_payload, C19_roundtrip_identify, C19_roundtrip_bitswap, C19_roundtrip_prefix, '
                  'C19_roundtrip_webrtc_message, C19_ws_roundtrip',
                  'kind 20 subs 1-9, 20-28: the value is given to the real encoder, its bytes to the real decoder, prop_ok compares with the value '
-                 '(ls response for every first-name length 1..130; WebSocket chunks; mDNS reply)']]}
+                 '(ls response for every first-name length 1..130; WebSocket chunks; mDNS reply)'],
+                ['(consumer stage) ... without panicking: a panic one step behind the decoder, on a value the decoder let through',
+                 'C19_peer_id_convertible, C19_conversion_boundary, C19_ed25519_peer_convertible, C19_inline_key_fits, C19_kad_decoded_usable, '
+                 'C19_kad_update_peers_convertible, C19_kad_update_peers_spec, C19_kad_request_events, C19_record_has_id_parsed, '
+                 'C19_record_has_id_appended, C19_negotiated_in_set, C19_sock_parse_ws_shape, C19_panic_sites_match, C19_panic_sites_classified',
+                 'kind 1 (real Kademlia::run in five roles, events and reply predicted), 10 (conversions predicted), 5 / 6 / 22 (key peer id), 11 / '
+                 '7 / 24 (address consumers, parsers predicted), 12 / 16 (negotiated index; C03 modes 5 / 6); trace `3 stage` = consumer panic']]}
